@@ -5,7 +5,7 @@ From Coq Require Import ZArith Reals Floats Bool.
 From Flocq Require Import Core BinarySingleNaN PrimFloat.
 From Coquelicot Require Import Complex.
 From PB Require Import Proofs.TwoSumExact Model.Phase2 Proofs.Floor Proofs.DayFrac Proofs.DayFrac3 Proofs.PhaseAdd Proofs.PhaseMore
-  Proofs.DayFracTail Proofs.TwoProduct Proofs.PhaseMul.
+  Proofs.DayFracTail Proofs.TwoProduct Proofs.PhaseMul Proofs.PhaseAbs Proofs.PhaseDiv.
 Open Scope R_scope.
 Notation fexp := (FLT_exp (-1074) 53).
 Notation rnd := (round radix2 fexp ZnearestE).
@@ -101,6 +101,38 @@ Theorem C07_mul_branch : forall (a : ph) (fac : PrimFloat.float), p_imag a = fal
   let '(d, g) := day_frac_gen (p_int a) (p_frac a) (Some fac) None in RPh {| p_int := d; p_frac := g; p_imag := false |}.
 Proof. exact op_mul_real. Qed.
 
+(* Phase / dimensionless number (quotient, exact residual through two_product and two_sum, correction quotient, renormalisation):
+   within 2^-52 cycles of the exact quotient and normalised, for |quotient| <= 2^47 and divisors between 2^-100 and 2^100 *)
+Theorem C07_div : forall i f dv : PrimFloat.float,
+  fin i -> fin f -> fin dv ->
+  Rabs (R_of i) <= bpow radix2 52 -> Rabs (R_of f) <= / 2 ->
+  bpow radix2 (-100) <= Rabs (R_of dv) <= bpow radix2 100 ->
+  let V := R_of i + R_of f in
+  (V = 0 \/ bpow radix2 (-60) <= Rabs V) ->
+  Rabs (V / R_of dv) <= bpow radix2 47 ->
+  let '(d, g) := day_frac_gen i f None (Some dv) in
+  fin d /\ fin g /\ (exists k : Z, R_of d = IZR k) /\
+  Rabs (R_of d + R_of g - V / R_of dv) <= bpow radix2 (-52) /\
+  Rabs (R_of g) <= / 2 + bpow radix2 (-50).
+Proof. exact phase_div_sound. Qed.
+Theorem C07_div_branch : forall (a : ph) (dv : PrimFloat.float), p_imag a = false ->
+  op_div a (NReal dv) =
+  let '(d, g) := day_frac_gen (p_int a) (p_frac a) None (Some dv) in RPh {| p_int := d; p_frac := g; p_imag := false |}.
+Proof. exact op_div_real. Qed.
+(* abs(Phase) (multiplication by the sign of count + fraction): within 2^-52 cycles of |value|, normalised *)
+Theorem C07_abs : forall i f : PrimFloat.float,
+  fin i -> fin f -> Rabs (R_of i) <= bpow radix2 52 - 3 -> Rabs (R_of f) <= / 2 ->
+  let V := R_of i + R_of f in
+  (V = 0 \/ bpow radix2 (-60) <= Rabs V) ->
+  let '(d, g) := day_frac_gen i f (Some (fsign (PrimFloat.add i f))) None in
+  fin d /\ fin g /\ (exists k : Z, R_of d = IZR k) /\
+  Rabs (R_of d + R_of g - Rabs V) <= bpow radix2 (-52) /\ Rabs (R_of g) <= / 2 + bpow radix2 (-50).
+Proof. exact phase_abs_sound. Qed.
+Theorem C07_abs_branch : forall a : ph,
+  op_abs a = let '(d, g) := day_frac_gen (p_int a) (p_frac a) (Some (fsign (PrimFloat.add (p_int a) (p_frac a)))) None in
+             RPh {| p_int := d; p_frac := g; p_imag := false |}.
+Proof. exact op_abs_is. Qed.
+
 (* imaginary phases, factors and divisors: the flag / sign rules of from_angles are complex multiplication and division *)
 Theorem C07_imag_factor : forall (a b : bool) (x f : R),
   Cmult (cplx a x) (cplx b f) = cplx (xorb a b) (x * (if b && a then - f else f)).
@@ -121,8 +153,8 @@ Theorem C07_from_angles_flags : forall v1 v2 fv (im imf : bool),
 Proof. exact from_angles_factor_flags. Qed.
 
 (* PARTIAL (not proved here, carried by the bit-exact correspondence + exact-rational monitor on every run):
-   division by a dimensionless number within 2^-52 (the quotient-correction steps), |frac| <= 1/2 exactly at ties, abs,
-   floor-division / remainder / divmod. *)
+   |frac| <= 1/2 exactly at ties, floor-division / remainder / divmod, and the ranges outside the hypotheses above
+   (divisors beyond 2^+-100, quotients beyond 2^47, subnormal phases). *)
 
 Print Assumptions C07_two_sum_exact.
 Print Assumptions C07_floor.
@@ -132,6 +164,10 @@ Print Assumptions C07_sub.
 Print Assumptions C07_neg.
 Print Assumptions C07_two_product_exact.
 Print Assumptions C07_mul.
+Print Assumptions C07_div.
+Print Assumptions C07_abs.
+Print Assumptions C07_div_branch.
+Print Assumptions C07_abs_branch.
 Print Assumptions C07_add_branch.
 Print Assumptions C07_imag_factor.
 Print Assumptions C07_from_angles_flags.
